@@ -41,19 +41,18 @@ def bounded(tier, seed, stop_first=False):
 
 
 def replay_search(obligation, qual, seed, tier):
-    """a concrete generated program violating the clause behind a failed site obligation, if the bounded run meets one"""
-    r = bounded(tier, seed, stop_first=True)
-    v = r.get('violations') or []
-    want = None
+    """a concrete generated program violating the clause behind a failed site obligation of the proof part (named
+    .../inv[J1..J6]), preferably one whose offending object was constructed by the function `qual`"""
+    ref = _load()
+    want = 'bounded['
     for tag, kind in (('J1', 'usv:'), ('J2', 'usc:'), ('J3', 'btp:'), ('J4', 'pf:'), ('J5', 'decl:'), ('J6', 'fun:')):
         if obligation and ('inv[%s]' % tag) in obligation:
-            want = kind
-    if want:
-        pref = [x for x in v if x['check'].startswith('bounded[' + want)]
-        if pref:
-            return pref[0]
-        return None
-    return v[0] if v else None
+            want = 'bounded[' + kind
+    site = qual if want[8:] in ('usv:', 'usc:', 'btp:') else None
+    r = ref.run(tier, seed, stop_first=True, stop_prefix=want, stop_function=site)
+    v = [x for x in (r.get('violations') or []) if x['check'].startswith(want)]
+    exact = [x for x in v if site and x.get('function') == site]
+    return (exact or v or [None])[0]
 
 
 def replay(payload):
